@@ -713,6 +713,14 @@ func (r *RegisteredDecoys) TotalRegistrations() int {
 	return r.totalRegistrations()
 }
 
+// totalTimeouts returns the number of timeout records, for use outside of the locked sections.
+func (r *RegisteredDecoys) totalTimeouts() int {
+	r.m.RLock()
+	defer r.m.RUnlock()
+
+	return len(r.decoysTimeouts)
+}
+
 func (r *RegisteredDecoys) totalRegistrations() int {
 
 	total := 0
@@ -853,7 +861,7 @@ func (r *RegisteredDecoys) removeOldRegistrations(logger *log.Logger) (int, int)
 	var expiredRegTimeoutIndices = r.getExpiredRegistrations()
 
 	logger.Debugf("cleansing registrations - registrations: %d, timeouts: %d, expired: %d",
-		r.TotalRegistrations(), len(r.decoysTimeouts), len(expiredRegTimeoutIndices))
+		r.TotalRegistrations(), r.totalTimeouts(), len(expiredRegTimeoutIndices))
 
 	expiredValid := 0
 	for _, idx := range expiredRegTimeoutIndices {
